@@ -208,7 +208,7 @@ def nested_entry_wrappers(cx):
     cached = getattr(cx, "_nested_entry_wrappers", None)
     if cached is not None:
         return cached
-    entry = {VM + "execute_instructions"}
+    entry = {VM + "execute_instructions", cx.need_fn(VM + "execute_instructions").qual}
     changed = True
     while changed:
         changed = False
@@ -529,6 +529,40 @@ def rule_timeout_poll(cx, tier):
             continue
         defs = du.defs.get(holder, [])
         bad = None
+        if not defs and 1 <= holder <= fn.argc:
+            # the loop takes its deadline as a parameter: every caller has to arm it from the configured limit
+            sites = 0
+            for g in cx.F.fns.values():
+                if g.crate.uname != "koto_runtime" or g.derived:
+                    continue
+                for c in g.calls():
+                    if c.short != fn.qual or len(c.args) < holder:
+                        continue
+                    sites += 1
+                    a = c.args[holder - 1]
+                    gl = op_base(a)
+                    gdu = cx.du(g)
+                    gd = gdu.single_def(gl) if gl is not None else None
+                    for _ in range(4):
+                        if gd is not None and gd[2] == "assign" and gd[3][0] == "use" and op_local(gd[3][1]) is not None:
+                            gd = gdu.single_def(op_local(gd[3][1]))
+                        else:
+                            break
+                    ok = False
+                    if gd is not None and gd[2] == "call" and gd[3].is_("Option::map", "Option::and_then") and gd[3].args:
+                        src = gd[3].args[0]
+                        fields = place_fields(op_place(src)) if op_place(src) else []
+                        rr = gdu.root(op_base(src), through_calls=DEREF) if op_base(src) is not None else None
+                        ok = "execution_limit" in fields or bool(rr and rr[0] == "field" and "execution_limit" in rr[2])
+                    r.sample({"loop_entry": g.qual, "line": c.line, "deadline_from_execution_limit": ok})
+                    if not ok:
+                        r.add(Finding("R-TIMEOUT-POLL", g.qual, "arming:" + fn.qual.rsplit("::", 1)[-1],
+                                      f"{g.qual.rsplit('::', 1)[-1]} enters the interpreter loop ({fn.qual.rsplit('::', 1)[-1]}) at line "
+                                      f"{c.line} with a deadline that is not derived from settings.execution_limit (None / a "
+                                      f"constant): code run through this entry is never interrupted although a limit is "
+                                      f"configured", g.file, c.line))
+            require(sites, f"R-TIMEOUT-POLL: {fn.qual} takes its deadline as a parameter but has no caller")
+            continue
         if len(defs) != 1:
             bad = f"the deadline holder `{fn.local_name(holder) or '_%d' % holder}` is assigned in {len(defs)} places"
         else:
@@ -2158,4 +2192,68 @@ def rule_unwind_no_result(cx, tier):
     r.analysed = {"unwinder": U.qual, "calls_that_can_reach_set_register": n,
                   "blocks_withdrawing_the_result_register": len(clears)}
     r.floor("frame-discarding calls in the unwinder", n, 1)
+    return r
+
+
+# ---------------------------------------------------------------------------------------------
+# R-FRAME-SAVE-RESTORE (C12): what push_frame saves in the calling frame, pop_frame puts back
+
+def rule_frame_save_restore(cx, tier):
+    r = RuleResult("R-FRAME-SAVE-RESTORE",
+                   "sibling agreement of push_frame and pop_frame: every field that push_frame saves in the calling frame "
+                   "(return_instruction_ip, return_resume_ip, return_value_register) is read back by pop_frame (or a "
+                   "private helper it calls), whoever pops the frame -- the interpreter's Return, the unwinder, or a native "
+                   "entry that pops its barrier frame.  A field restored by only one of those callers leaves the others "
+                   "with the callee's value: with `instruction_ip` that is the position that error traces and `debug` "
+                   "report")
+    push = cx.need_fn(VM + "push_frame")
+    pop = cx.need_fn(VM + "pop_frame")
+    saved = {}
+    for b in push.blocks:
+        if b.cleanup:
+            continue
+        for st in b.stmts:
+            if st[0] == "a" and "*" in st[1][1]:
+                fs = place_fields(st[1])
+                if fs and cx.F and push.crate.tstr(push.local_ty(st[1][0])).endswith("Frame"):
+                    saved.setdefault(fs[-1], st[-1] if isinstance(st[-1], int) else None)
+    require(saved, "R-FRAME-SAVE-RESTORE: push_frame writes no field of the calling frame")
+    # fields read in pop_frame and the private KotoVm helpers it calls (2 levels)
+    scope = [pop]
+    for _ in range(2):
+        for g in list(scope):
+            for c in g.calls():
+                t = cx.F.fns.get(c.resolved)
+                if t is not None and t.qual.startswith(VM) and t not in scope and t.qual != VM + "push_frame":
+                    scope.append(t)
+    read = set()
+    from ..mir import rv_places
+    for g in scope:
+        for b in g.blocks:
+            if b.cleanup:
+                continue
+            for st in b.stmts:
+                if st[0] == "a":
+                    for pl in rv_places(st[2]):
+                        read.update(place_fields(pl))
+            c = g.call_at(b.idx)
+            if c is not None:
+                for a in c.args:
+                    pl = op_place(a)
+                    if pl is not None:
+                        read.update(place_fields(pl))
+    r.analysed = {"fields_saved_by_push_frame": sorted(saved), "functions_searched_for_the_restore": [g.qual[len(VM):] for g in scope][:12]}
+    r.floor("fields saved by push_frame in the calling frame", len(saved), 3)
+    for f in sorted(saved):
+        r.instances += 1
+        r.nontrivial += 1
+        ok = f in read
+        r.sample({"field": f, "read_back_by_pop_frame": ok})
+        if not ok:
+            r.add(Finding("R-FRAME-SAVE-RESTORE", pop.qual, f"{f}:not-restored",
+                          f"push_frame saves `{f}` in the calling frame but pop_frame never reads it back: callers that pop "
+                          f"a frame themselves (native entries popping their barrier frame, the interpreter's Return) continue "
+                          f"with the callee's value"
+                          + (" -- `instruction_ip` then points into the finished callee, so the next error trace and `debug` "
+                             "prefix name the wrong line" if "instruction_ip" in f else ""), pop.file, pop.line))
     return r
